@@ -253,7 +253,7 @@ class Ctx:
 
     # input descriptors whose shape constraints the denotations rely on (a list one element shorter is not a
     # corrupted observation but an ill-formed case)
-    BIND_SKIP = {"id", "tid", "kind", "what", "conns", "nums", "kw", "seq", "seps", "kinds", "js", "dirs", "w"}
+    BIND_SKIP = {"id", "tid", "kind", "what", "conns", "nums", "kw", "seq", "seps", "kinds", "js", "dirs", "w", "build"}
 
     def _corrupt(self, rec, frac=1.0):
         """Binding self-test: change one recorded field (flip a boolean, add one to an integer, drop the last element
